@@ -134,6 +134,11 @@ func runSearch(a map[string]string) {
 		for k, v := range r6 {
 			results["reuse:"+k] += v
 		}
+		e10, r10 := runText(g, hx.ArgInt(a, "text", 6), emit)
+		evals += e10
+		for k, v := range r10 {
+			results["text:"+k] += v
+		}
 		e9, r9 := runParseTargets(g, hx.ArgInt(a, "parse", 2), emit)
 		evals += e9
 		for k, v := range r9 {
@@ -166,7 +171,7 @@ func runSearch(a map[string]string) {
 			for j := range fam {
 				evals++
 				got := hx.Guard(func() string { return b01(verify(pkb, fam[j].b, sigs[i])) })
-				want := b01(i == j)
+				want := b01(i == j || bytes.Equal(fam[i].b, fam[j].b)) // equal messages are not a forgery
 				results["related="+got]++
 				if got == want {
 					continue
